@@ -2,7 +2,7 @@
    ONLY statements: each theorem is closed by `exact` of a lemma proved elsewhere and followed by Print Assumptions. *)
 From Coq Require Import ZArith NArith List Bool Lia Permutation.
 Import ListNotations.
-Require Import Base Strings Builtins Codec Interp Machine Spec RunG Bits Utf.
+Require Import Base Strings Builtins Codec Interp Machine Spec RunG Bits Utf Utf16.
 Open Scope Z_scope.
 Theorem le_roundtrip  :
   forall w n, 0 <= n < P w -> le_value (le_bytes w n) = n.
@@ -75,4 +75,86 @@ Theorem utf8_injective s t :
   Forall scalar s -> Forall scalar t -> utf8_encode s = utf8_encode t -> s = t.
 Proof. exact (Utf.utf8_injective s t). Qed.
 Print Assumptions utf8_injective.
+
+(* UTF-16 (RFC 2781): code units with surrogate pairs, strict decoder *)
+Theorem utf16_units_roundtrip  :
+  forall s, Forall scalar s -> utf16_of_units (utf16_units s) = Some s.
+Proof. exact (Utf16.utf16_units_roundtrip ). Qed.
+Print Assumptions utf16_units_roundtrip.
+
+(* a character outside the BMP is exactly one high + low surrogate pair *)
+Theorem astral_is_a_pair c :
+  0x10000 <= c < 0x110000 ->
+  exists hi lo, units1 c = [hi; lo] /\ 0xD800 <= hi <= 0xDBFF /\ 0xDC00 <= lo <= 0xDFFF /\ c = 0x10000 + (hi - 0xD800) * 1024 + (lo - 0xDC00).
+Proof. exact (Utf16.astral_is_a_pair c). Qed.
+Print Assumptions astral_is_a_pair.
+
+(* UTF-16 bytes in the requested byte order: decode (encode s) = s for every string of scalar values *)
+Theorem utf16_roundtrip big s :
+  Forall scalar s -> utf16_decode big (utf16_encode big s) = Some s.
+Proof. exact (Utf16.utf16_roundtrip big s). Qed.
+Print Assumptions utf16_roundtrip.
+
+(* UTF-32 likewise (decoder rejects surrogates and values above U+10FFFF) *)
+Theorem utf32_roundtrip big s :
+  Forall scalar s -> utf32_decode big (utf32_encode big s) = Some s.
+Proof. exact (Utf16.utf32_roundtrip big s). Qed.
+Print Assumptions utf32_roundtrip.
+
+Theorem utf16_big_is_reversed_units u :
+  ser true le2 [u] = rev (ser false le2 [u]).
+Proof. exact (Utf16.utf16_big_is_reversed_units u). Qed.
+Print Assumptions utf16_big_is_reversed_units.
+
+Theorem utf32_big_is_reversed_units u :
+  ser true le4 [u] = rev (ser false le4 [u]).
+Proof. exact (Utf16.utf32_big_is_reversed_units u). Qed.
+Print Assumptions utf32_big_is_reversed_units.
+
+Theorem utf16_rejects_lone_low u r :
+  lo_sur u = true -> utf16_of_units (u :: r) = None.
+Proof. exact (Utf16.utf16_rejects_lone_low u r). Qed.
+Print Assumptions utf16_rejects_lone_low.
+
+Theorem utf16_rejects_unpaired_high u r :
+  hi_sur u = true -> (match r with v :: _ => lo_sur v = false | [] => True end) -> utf16_of_units (u :: r) = None.
+Proof. exact (Utf16.utf16_rejects_unpaired_high u r). Qed.
+Print Assumptions utf16_rejects_unpaired_high.
+
+Theorem utf16_rejects_odd_length big a :
+  de2 big [a] = None.
+Proof. exact (Utf16.utf16_rejects_odd_length big a). Qed.
+Print Assumptions utf16_rejects_odd_length.
+
+Theorem utf32_rejects_non_scalar big c :
+  0 <= c < 0x110000 -> scalarb c = false -> utf32_decode big (ser big le4 [c]) = None.
+Proof. exact (Utf16.utf32_rejects_non_scalar big c). Qed.
+Print Assumptions utf32_rejects_non_scalar.
+
+(* no byte order requested: a byte-order mark FF FE is written, little-endian follows, and decoding honours the mark *)
+Theorem utf16_bom_roundtrip s :
+  Forall scalar s -> utf16_decode_bom (utf16_encode_bom s) = Some s.
+Proof. exact (Utf16.utf16_bom_roundtrip s). Qed.
+Print Assumptions utf16_bom_roundtrip.
+
+Theorem utf16_bom_bytes s :
+  exists r, utf16_encode_bom s = 0xFF :: 0xFE :: r /\ r = utf16_encode false s.
+Proof. exact (Utf16.utf16_bom_bytes s). Qed.
+Print Assumptions utf16_bom_bytes.
+
+(* a big-endian mark is honoured when reading *)
+Theorem utf16_bom_big_accepted s :
+  Forall scalar s -> utf16_decode_bom (ser true le2 [bom] ++ utf16_encode true s) = Some s.
+Proof. exact (Utf16.utf16_bom_big_accepted s). Qed.
+Print Assumptions utf16_bom_big_accepted.
+
+Theorem utf32_bom_roundtrip s :
+  Forall scalar s -> utf32_decode_bom (utf32_encode_bom s) = Some s.
+Proof. exact (Utf16.utf32_bom_roundtrip s). Qed.
+Print Assumptions utf32_bom_roundtrip.
+
+Theorem utf32_bom_big_accepted s :
+  Forall scalar s -> utf32_decode_bom (ser true le4 [bom] ++ utf32_encode true s) = Some s.
+Proof. exact (Utf16.utf32_bom_big_accepted s). Qed.
+Print Assumptions utf32_bom_big_accepted.
 
